@@ -22,8 +22,9 @@ ASSUMPTIONS = [
     "liveness restated as bounded progress on the virtual clock; histories end with a long clock advance",
 ]
 SHARD_TIMEOUT = {"quick": 600, "thorough": 3000}
-ALPHABET = ["C", "P", "Q", "S", "L", "R", "T", "F", "X", "a", "A"]
+ALPHABET = ["C", "P", "Q", "S", "L", "M", "R", "T", "F", "X", "a", "A"]
 # X the lowest free (accepted, idle) connection is closed by its client
+# M like L, but the application writes half of the response, then blocks until F (executing with output pending)
 # C connect; P partial request on the newest free connection; Q a few more bytes of a partial request; S complete request (small response) on the
 # lowest free connection; L same with a response larger than the send buffer; R / T the lowest connection
 # with unread output starts / stops reading; F the oldest blocked application finishes; a advance 1 s;
@@ -81,10 +82,16 @@ def run_history(cfg, hist):
     obs["map_sizes"].append((0.0, len(w.map)))
 
     def on_enter(cid, idx, environ):
+        if "k=wgate" in environ.get("QUERY_STRING", ""):
+            return  # this kind blocks in mid-response instead (on_mid)
         ev = gates.setdefault((cid, idx), w.Event())
         ev.wait()
 
-    holder["app"] = SC.make_app(w, log, {"on_enter": on_enter})
+    def on_mid(cid, idx, environ):
+        ev = gates.setdefault((cid, idx), w.Event())
+        ev.wait()
+
+    holder["app"] = SC.make_app(w, log, {"on_enter": on_enter, "on_mid": on_mid})
     state = []  # per connection dict
 
     def director(world, results, lg):
@@ -108,7 +115,7 @@ def run_history(cfg, hist):
                 c = world.connect(listener=li, sndbuf=512)
                 state.append({"client": c, "reading": True, "sent": 0, "partial": False, "busy": False, "t_connect": now,
                               "reqs": []})
-            elif ev in ("S", "L", "P"):
+            elif ev in ("S", "L", "P", "M"):
                 free = [st for st in state if not st["busy"] and not st["partial"] and not st["client"].conn.server_closed
                         and st["client"].conn.accepted and not st.get("closed")]
                 if not free:
@@ -117,6 +124,9 @@ def run_history(cfg, hist):
                 cid = st["client"].conn.cid
                 idx = st["sent"]
                 req = {"n": 40 if ev != "L" else 3000, "k": "cl"}
+                if ev == "M":
+                    # the application writes 1500 bytes, then blocks (until F), then writes the rest
+                    req = {"n": 3000, "k": "wgate", "w": 1500}
                 head, body = SC.request_bytes(cid, idx, req)
                 if ev == "P":
                     st["client"].send(head[: len(head) // 2])
@@ -126,7 +136,7 @@ def run_history(cfg, hist):
                     st["client"].send(head + body)
                     st["busy"] = True
                     st["sent"] += 1
-                    st["reqs"].append({"idx": idx, "t_sent": now, "large": ev == "L"})
+                    st["reqs"].append({"idx": idx, "t_sent": now, "large": ev in ("L", "M")})
             elif ev == "X":
                 free = [st for st in state if not st["busy"] and not st["partial"] and not st["client"].conn.server_closed
                         and st["client"].conn.accepted and not st.get("closed")]
@@ -412,6 +422,12 @@ DIRECTED = [
     ({"connection_limit": 8, "channel_timeout": 3, "cleanup_interval": 1, "listeners": 1, "threads": 1}, "CCSSAAFaFA"),
     # large response to a peer that stops reading (finding F-12)
     ({"connection_limit": 8, "channel_timeout": 3, "cleanup_interval": 1, "listeners": 1, "threads": 1}, "CTLFA"),
+    # a request that is executing (blocked in mid-response) with output pending to a peer that stopped reading
+    ({"connection_limit": 8, "channel_timeout": 3, "cleanup_interval": 1, "listeners": 1, "threads": 2}, "CaMTaAaFA"),
+    ({"connection_limit": 8, "channel_timeout": 3, "cleanup_interval": 4, "listeners": 1, "threads": 1}, "CaMaTAAFA"),
+    # several connections whose peers stopped reading go idle together: all of them are due in the same round
+    ({"connection_limit": 8, "channel_timeout": 3, "cleanup_interval": 4, "listeners": 1, "threads": 3}, "CCCaLLLTTTaFFFaAa"),
+    ({"connection_limit": 8, "channel_timeout": 3, "cleanup_interval": 1, "listeners": 1, "threads": 3}, "CCCaLLLTTTaFFFaAa"),
     # a limit large enough for any hysteresis to show: at the limit, one waits in the backlog, ONE client leaves
     ({"connection_limit": 12, "channel_timeout": 10, "cleanup_interval": 4, "listeners": 1, "threads": 1}, "CCCCCCCCCCCaXaaa"),
     ({"connection_limit": 24, "channel_timeout": 10, "cleanup_interval": 4, "listeners": 2, "threads": 1}, "C" * 23 + "aXaaa"),
